@@ -10,7 +10,7 @@ RULE = ("conversions: positions sx,sy (scalars and arrays) anywhere in a scanned
         "get_voxel_idx, the step grid, the sine fit; reconstructions: ny in [41,120] odd and even, 0-180 and 0-360 "
         "scans, point-like grain (Gaussian sigma 0.8 step along dty at dty_values_grain_in_beam) anywhere in the "
         "disc, y0 offset up to +-10 steps, module's own shift/pad: arg-max within 1.5 px of sample_to_recon and the module's LoG blob fit within 2 steps of the simulated position, "
-        "linearity, workers in {1,2,5,16}, ROI masks; non-trivial = |y0 offset| >= 2 steps, or even ny, or position "
+        "linearity, workers in {1,2,5,16}, ROI masks; consumers: GrainSinogram (prepare_peaks_from_2d, build_sinogram, position from peaks, recon with the module's shift/pad, position from recon) on simulated peaks of a point-like grain with 40-200 projections plus foreign peaks, and PBPRefine.setmask on a uniform sample disc (mask centre within 1.5 steps in the map's own grid); non-trivial = |y0 offset| >= 2 steps, or even ny, or position "
         ">= 0.5 radius from the axis; distinct = hash of the case")
 ASSUMPTIONS = ["positions exactly on a half-step boundary of the dtyi discretisation are excluded (counted)",
                "reconstruction tolerance 1.5 px as stated by the property (worst seen in calibration 1.12 px)",
@@ -334,11 +334,219 @@ def check_recon(case, rec=None):
     return fails
 
 
+# ------------------------------------------------------------------ consumers: GrainSinogram, PBPRefine.setmask
+
+@st.composite
+def consumercases(draw):
+    c = draw(reconcases())
+    c["which"] = draw(st.sampled_from(["grainsino", "grainsino", "setmask"]))
+    c["nproj"] = draw(st.integers(40, 200))
+    c["label"] = draw(st.sampled_from([0, 1, 3]))
+    c["icolf"] = draw(st.booleans())
+    return c
+
+
+def make_dataset(ybc, full):
+    """A DataSet whose bins are made by the library's own guessbins from a regular (dty, omega) scan"""
+    from ImageD11.sinograms import dataset
+    nom = 360 if full else 180
+    ds = dataset.DataSet()
+    ds.shape = (len(ybc), nom)
+    ds.omega = np.outer(np.ones(len(ybc)), np.arange(nom) * 1.0 + 0.5)
+    ds.dty = np.outer(ybc, np.ones(nom))
+    ds.guessbins()
+    return ds
+
+
+def check_consumers(case, rec=None):
+    import io, contextlib
+    from ImageD11.sinograms import geometry as G, sinogram, point_by_point as pbp
+    from ImageD11 import grain, columnfile
+    from vf import gens
+    ystep, ny = case["ystep"], case["ny"]
+    ymin = case["yminoff"] * ystep
+    ybc = ymin + np.arange(ny) * ystep
+    y0 = 0.5 * (ybc[0] + ybc[-1]) + case["y0off"] * ystep
+    orange = 360 if case["full"] else 180
+    rmax = min(y0 - ybc[0], ybc[-1] - y0) - 2 * ystep
+    if rmax <= 4.5 * ystep:
+        if rec is not None:
+            rec.exclude("rotation axis offset leaves no scanned disc")
+        return []
+    rng = np.random.RandomState(case["seed"] % (2 ** 32))
+    fails = []
+    with contextlib.redirect_stdout(io.StringIO()):
+        ok, ds = guard(make_dataset, ybc, case["full"])
+    if not ok:
+        return [exc_failure("DataSet.guessbins", ds)]
+    if not (np.allclose(ds.ybincens, ybc, rtol=0, atol=1e-9 * (abs(ybc).max() + 1)) and abs(ds.ystep - ystep) < 1e-9 * ystep):
+        return [fail("bins", "DataSet.guessbins: ybincens/ystep differ from the scanned dty values", what="bins")]
+    where = "ny=%d %s ystep=%g y0 offset %.2f steps" % (ny, "0-360" if case["full"] else "0-180", ystep, case["y0off"])
+    if case["which"] == "grainsino":
+        r = rmax * np.sqrt(case["rfrac"])
+        a = np.radians(case["ang"])
+        sx, sy = r * np.cos(a), r * np.sin(a)
+        nproj, label = case["nproj"], case["label"]
+        UB = gens.rotation_from_seed(case["seed"]) @ (np.eye(3) / 4.0)
+        g = grain.grain(np.linalg.inv(UB))
+        hk = [(h, k, l) for h in range(-3, 4) for k in range(-3, 4) for l in range(-3, 4) if (h, k, l) != (0, 0, 0)]
+        combos = [(h, sg) for h in hk for sg in (-1, 1)]
+        sel = rng.permutation(len(combos))[:nproj]
+        om_p = ((np.arange(nproj) + rng.uniform(0.05, 0.95, nproj)) * orange / nproj)[rng.permutation(nproj)]
+        rows = {k: [] for k in ("gx", "gy", "gz", "omega", "dty", "eta", "sum_intensity")}
+        expected = np.zeros((ny, nproj))
+        cen = y0 - sx * np.sin(np.radians(om_p)) - sy * np.cos(np.radians(om_p))      # lab y = 0
+        for pj, ci in enumerate(sel):
+            hkl, es = combos[ci]
+            prof = np.exp(-0.5 * ((np.arange(ny) - (cen[pj] - ymin) / ystep) / 0.8) ** 2)
+            scale = rng.uniform(10, 1000)
+            for b in np.nonzero(prof > 1e-3)[0]:
+                gv = UB @ np.array(hkl, float) + rng.normal(0, 1e-5, 3)
+                for k, v in zip(("gx", "gy", "gz"), gv):
+                    rows[k].append(v)
+                rows["omega"].append(om_p[pj])
+                rows["dty"].append(ybc[b] + rng.uniform(-0.3, 0.3) * ystep)
+                rows["eta"].append(es * rng.uniform(5, 175))
+                rows["sum_intensity"].append(prof[b] * scale)
+                expected[b, pj] += prof[b] * scale
+        nown = len(rows["gx"])
+        for _ in range(50):                     # peaks of something else: not indexed by this grain
+            gv = UB @ (rng.randint(-3, 4, 3) + rng.uniform(0.3, 0.7, 3))
+            for k, v in zip(("gx", "gy", "gz"), gv):
+                rows[k].append(v)
+            rows["omega"].append(rng.uniform(0, orange))
+            rows["dty"].append(ybc[rng.randint(ny)])
+            rows["eta"].append(rng.uniform(-175, 175))
+            rows["sum_intensity"].append(rng.uniform(10, 1000))
+        perm = rng.permutation(len(rows["gx"]))
+        cf = columnfile.colfile_from_dict({k: np.array(v)[perm] for k, v in rows.items()})
+
+        def pipeline():
+            gs = sinogram.GrainSinogram(g, ds)
+            gs.prepare_peaks_from_2d(cf, label, 0.25)
+            gs.build_sinogram()
+            return gs
+        with contextlib.redirect_stdout(io.StringIO()):
+            ok, gs = guard(pipeline)
+        if not ok:
+            return [exc_failure("GrainSinogram.prepare_peaks_from_2d/build_sinogram", gs)]
+        order = np.argsort(om_p)
+        exp = expected[:, order] / expected[:, order].max(axis=0)
+        if gs.cf_for_sino.nrows != nown:
+            fails.append(fail("grainsino", "prepare_peaks_from_2d(label %d) keeps %d peaks, %d belong to the grain; %s" %
+                              (label, gs.cf_for_sino.nrows, nown, where), what="peaks"))
+        elif gs.ssino.shape != exp.shape or np.abs(gs.ssino - exp).max() > 1e-5 or \
+                np.abs(gs.sinoangles - om_p[order]).max() > 1e-3:
+            fails.append(fail("grainsino", "build_sinogram: sinogram (NY x projections, sorted by angle, each projection "
+                              "normalised) or its angles differ from the binned peaks; %s" % where, what="sino"))
+        else:
+            cf4 = columnfile.colfile_from_dict({"grain_id": np.full(nproj, label), "omega": om_p, "dty": cen})
+            ok, e = guard(gs.update_lab_position_from_peaks, cf4, label)
+            if not ok:
+                return [exc_failure("update_lab_position_from_peaks", e)]
+            t = np.asarray(gs.grain.translation, float)
+            if np.hypot(t[0] - sx, t[1] - sy) > 1e-4 * (r + ystep) or abs(gs.recon_y0 - y0) > 1e-4 * (r + ystep) or t[2] != 0:
+                fails.append(fail("grainsino", "update_lab_position_from_peaks: translation %s y0 %r, simulated (%.4f, "
+                                  "%.4f) y0 %.4f; %s" % (t.tolist(), gs.recon_y0, sx, sy, y0, where), what="fit"))
+            ok, sp = guard(G.sino_shift_and_pad, gs.recon_y0, ny, ymin, ystep)
+            if not ok:
+                return fails + [exc_failure("sino_shift_and_pad", sp)]
+            gs.update_recon_parameters(pad=int(sp[1]), shift=sp[0])
+            with contextlib.redirect_stdout(io.StringIO()):
+                ok, rc = guard(gs.recon, workers=2)
+            if not ok:
+                return fails + [exc_failure("GrainSinogram.recon", rc)]
+            ri, rj = np.unravel_index(np.argmax(rc), rc.shape)
+            pr = G.sample_to_recon(sx, sy, rc.shape, ystep)
+            d = float(np.hypot(ri - pr[0], rj - pr[1]))
+            if d > 1.5:
+                fails.append(fail("grainsino", "GrainSinogram.recon maximum at (%d,%d), geometry predicts (%.2f,%.2f): "
+                                  "%.2f px apart (%d projections); %s" % (ri, rj, pr[0], pr[1], d, nproj, where),
+                                  what="argmax"))
+            gs.grain.translation = None
+            ok, e = guard(gs.update_lab_position_from_recon)
+            if not ok:
+                fails.append(exc_failure("update_lab_position_from_recon", e))
+            elif gs.grain.translation is None:
+                if rec is not None:
+                    rec.exclude("update_lab_position_from_recon found no blob")
+            else:
+                t = np.asarray(gs.grain.translation, float)
+                if np.hypot(t[0] - sx, t[1] - sy) > 2.0 * ystep:
+                    fails.append(fail("grainsino", "update_lab_position_from_recon gives %s, simulated (%.2f, %.2f); %s" %
+                                      (t.tolist(), sx, sy, where), what="blob"))
+            if rec is not None:
+                rec.note("max_grainsino_position_error_px", d, "max")
+    else:
+        # a uniform disc of sample; the refinement mask must sit on it in the map's own grid
+        R = rng.uniform(4 * ystep, max(4.01 * ystep, 0.9 * rmax))
+        rc_ = (rmax - R) * np.sqrt(case["rfrac"])
+        a = np.radians(case["ang"])
+        cx, cy = rc_ * np.cos(a), rc_ * np.sin(a)
+        # noise-free peak list: in every (dty, omega) bin a number of peaks proportional to the chord of the disc
+        omc = np.asarray(ds.obincens, float)
+        tc = y0 - cx * np.sin(np.radians(omc)) - cy * np.cos(np.radians(omc))
+        chord = 2 * np.sqrt(np.clip(R * R - (ybc[:, None] - tc[None, :]) ** 2, 0, None)) / ystep
+        cnt = np.rint(chord * 0.5).astype(int)
+        bi, oi = np.nonzero(cnt)
+        dty = np.repeat(ybc[bi], cnt[bi, oi])
+        om = np.repeat(omc[oi], cnt[bi, oi])
+        pm_ = rng.permutation(len(dty))
+        dty, om = dty[pm_], om[pm_]
+        cf = columnfile.colfile_from_dict({"dty": dty, "omega": om})
+
+        def pipeline():
+            ref = pbp.PBPRefine(ds, "phase", y0=y0)
+            ij = np.array(G.step_grid_from_ybincens(ybc, ystep, 1, y0))
+            pm = pbp.PBPMap(new=True)
+            pm.nrows = len(ij)
+            pm.addcolumn(ij[:, 0].copy(), "i")
+            pm.addcolumn(ij[:, 1].copy(), "j")
+            ref.setmap(pm)
+            if case["icolf"]:
+                ref.icolf = cf
+            else:
+                ref.colf = cf
+            ref.setmask(use_icolf=case["icolf"])
+            return ref
+        with contextlib.redirect_stdout(io.StringIO()):
+            ok, ref = guard(pipeline)
+        if not ok:
+            return [exc_failure("PBPRefine.setmap/setmask", ref)]
+        m = np.asarray(ref.mask, bool)
+        if m.shape != ref.sx_grid.shape:
+            fails.append(fail("setmask", "setmask: mask shape %s, map grid %s; %s" % (m.shape, ref.sx_grid.shape, where),
+                              what="shape"))
+        elif m.sum() == 0:
+            fails.append(fail("setmask", "setmask: empty mask for a disc of radius %.1f steps; %s" % (R / ystep, where),
+                              what="empty"))
+        else:
+            mx, my = ref.sx_grid[m].mean(), ref.sy_grid[m].mean()
+            d = float(np.hypot(mx - cx, my - cy)) / ystep
+            ratio = m.sum() * ystep ** 2 / (np.pi * R * R)
+            if d > 1.5 or not 0.5 < ratio < 2.5:
+                fails.append(fail("setmask", "setmask: mask centred at (%.2f, %.2f) with %.2f of the disc's area, the "
+                                  "sample disc is at (%.2f, %.2f): %.2f steps apart; radius %.1f steps; %s" %
+                                  (mx, my, ratio, cx, cy, d, R / ystep, where), what="position"))
+            if rec is not None:
+                rec.note("max_setmask_centre_error_steps", d, "max")
+                rec.note("setmask_area_ratio_max", ratio, "max")
+                rec.note("setmask_area_ratio_min", ratio, "min")
+    if rec is not None:
+        nt = abs(case["y0off"]) >= 2 or ny % 2 == 0 or case["rfrac"] >= 0.25
+        rec.case(case, nt, ["consumer:" + case["which"]])
+    return fails
+
+
 def run_shard(rec):
     quick = rec.tier == "quick"
     hyp_run(rec, "conversions", convcases(), lambda c: check_conv(c, rec), max_examples=150 if quick else 2000)
     hyp_run(rec, "recon", reconcases(), lambda c: check_recon(c, rec), max_examples=25 if quick else 400)
+    hyp_run(rec, "consumers", consumercases(), lambda c: check_consumers(c, rec), max_examples=12 if quick else 200,
+            shrink=not quick)
 
 
 def replay(sub, case, rec):
+    if sub == "consumers":
+        return check_consumers(case, rec)
     return check_recon(case, rec) if sub == "recon" else check_conv(case, rec)
